@@ -348,6 +348,7 @@ func partA(e *env) {
 	partAUnknown(e)
 	partANesting(e)
 	partADeprecated(e)
+	partADefaults(e)
 }
 
 // universe is every ID that is known for the rule type: rules (incl. deprecated) and categories with rules of the type.
@@ -609,6 +610,20 @@ func partANesting(e *env) {
 			r.Distinct("N|" + v.Name + chain[i])
 		}
 	}
+}
+
+// partADefaults records (does not judge) whether the default rules are the documented default category.
+func partADefaults(e *env) {
+	facts := map[string]bool{}
+	for _, v := range allVersions {
+		for kind, cat := range map[string]string{"lint": "STANDARD", "breaking": "FILE"} {
+			a, ea := e.configuredRules(cfg{Version: v.Name, Type: kind})
+			b, eb := e.configuredRules(cfg{Version: v.Name, Type: kind, Use: []string{cat}})
+			e.r.Eval(1)
+			facts[v.Name+"/"+kind+"=="+cat] = ea == nil && eb == nil && strings.Join(a, ",") == strings.Join(b, ",")
+		}
+	}
+	e.r.Set("default_rules_equal_documented_category", facts)
 }
 
 // partADeprecated: a deprecated ID gives the same ConfiguredRules as its replacements, in use and in except position.
